@@ -209,7 +209,7 @@ func main() {
 		ID: p, Model: model, Gen: gen(p), Impl: impl, Oracle: oracle(p),
 		Cases: func(th bool) int {
 			if th {
-				return 500
+				return 220
 			}
 			return 36
 		},
